@@ -224,6 +224,27 @@ def mutants_of(path, seed=0, per_func=6):
     return src, out
 
 
+class _Res:
+    def __init__(self, rc, out):
+        self.returncode, self.stdout = rc, out
+
+
+def _run_group(cmd, cwd, env, timeout):
+    """run a command in its own process group; on timeout the whole group (worker processes included) is killed"""
+    import signal
+    pr = subprocess.Popen(cmd, cwd=cwd, env=env, stdout=subprocess.PIPE, stderr=subprocess.STDOUT, text=True, start_new_session=True)
+    try:
+        out, _ = pr.communicate(timeout=timeout)
+        return _Res(pr.returncode, out)
+    except subprocess.TimeoutExpired:
+        try:
+            os.killpg(pr.pid, signal.SIGKILL)
+        except Exception:
+            pass
+        out, _ = pr.communicate()
+        return _Res(-9, (out or '') + '\nTIMEOUT')
+
+
 def run_one(wt, src, m, procs, with_tests):
     path = os.path.join(wt, m['file'])
     new = src[:m['start']] + m['new'] + src[m['end']:]
@@ -237,8 +258,7 @@ def run_one(wt, src, m, procs, with_tests):
     try:
         env = dict(os.environ, VERIF_REPO=wt, VERIF_PROCS=str(procs), VERIF_NO_EVIDENCE='1', VERIF_CALL_TIMEOUT='120')
         for chk in m['checks']:
-            p = subprocess.run([os.path.join(VERIF, 'check'), chk], cwd=VERIF, env=env, stdout=subprocess.PIPE,
-                               stderr=subprocess.STDOUT, text=True, timeout=1500)
+            p = _run_group([os.path.join(VERIF, 'check'), chk], cwd=VERIF, env=env, timeout=1500)
             if p.returncode == 1 and 'VIOLATION' in p.stdout:
                 res['caught_by'].append(chk)
                 sig = re.findall(r'^  \[([^\]]*)\]', p.stdout, re.M)
